@@ -56,6 +56,8 @@ def find_writer(repo):
                 if isinstance(n, ast.Call) and (getattr(n.func, 'id', None) in wrappers or getattr(n.func, 'attr', None) in wrappers) and len(n.args) >= 2:
                     nm = getattr(n.func, 'id', None) or n.func.attr
                     ia, ib = wrappers[nm]
+                    if len(n.args) <= max(ia, ib):
+                        continue
                     a, b = n.args[ia], n.args[ib]
                     if isinstance(a, ast.Subscript) and isinstance(b, ast.Subscript) and ast.dump(a.slice) == ast.dump(b.slice):
                         a, b = a.value, b.value                    # wrapper(lists, ties, k) -> writer(lists[k], ties[k])
